@@ -27,6 +27,7 @@ func runC20(c *Check) {
 	c.Doc("C20-R1", "ER: cursor increment reachable after a retrieval only for Success/NotFound.")
 	c.Doc("C20-R2", "EO+VP: remainder push is followed by a cursor increment before the cursor is persisted.")
 	c.Doc("C20-R3", "GA: size guard on appends to the batch.")
+	c.Doc("C20-R7", "EO: every non-error return after a cursor increment or a durable remainder push passes the write of the scan position.")
 	c.Doc("C20-R4", "EO+VP: pop before scan, in-order append, remainder = Data[i:]/IDs[i:], persisted value = cursor.")
 	fnb := p.MustFunc("(*" + basedPkg + ".Sequencer).GetNextBatch")
 	g := BuildECFG(p, fnb, ExpandOpts{MaxDepth: 0})
@@ -199,6 +200,21 @@ func runC20(c *Check) {
 			}
 		}
 	}
+	// R7: once the scan moved (cursor increment) or a remainder was queued durably, every return
+	// passes the write of the cursor: the scan position and the carry-over queue stay in step on
+	// disk, whatever the batch returned (including an empty one)
+	{
+		moved := append(append([]*Node{}, loopIncs...), pushes...)
+		var okExits []*Node
+		for _, x := range g.Exits {
+			if g.ExitClass(x) != rcA {
+				okExits = append(okExits, x)
+			}
+		}
+		c.Decide("C20-R7", "GetNextBatch ⟂ scan-moved→cursor-persisted", fn, p.InstrPos(puts[0].In), "every non-error return after the scan moved or a remainder was queued passes the write of the scan position",
+			"the call can return after the scan moved past a DA height (its transactions released or queued durably) without writing the scan position: after a restart that height is scanned again and its transactions are released twice", g,
+			g.PathAvoiding(moved, nodeSet(okExits), nodeSet(puts)))
+	}
 	// R3
 	txApps := g.Select(func(n *Node) bool {
 		if CallName(n) != "append" {
@@ -328,6 +344,7 @@ func runC20(c *Check) {
 	c.Doc("C20-R6", "EO: no error return of GetNextBatch is reachable after the durable pop of the carry-over queue.")
 	rulePoppedNotDiscarded(c, p, g, fnb)
 	c.MinInstances("C20-R1", 1)
+	c.MinInstances("C20-R7", 1)
 	c.MinInstances("C20-R2", 1)
 	c.MinInstances("C20-R3", 4)
 	c.MinInstances("C20-R4", 4)
